@@ -312,32 +312,3 @@ Proof.
     apply tk_num_inj. exact E.
 Qed.
 
-(* ================================================================================================ *)
-(* 3. detectors                                                                                       *)
-(* ================================================================================================ *)
-Definition gen_of (m : macrodef) : result (grammar * tables * list conflict * list lrstate) :=
-  generate_tables max_states (detector_grammar m) detector_prefix_mode
-                  (Nt (N.of_nat detector_start)) (Tm (tk_num detector_eof)).
-
-Lemma make_detector_inv m d : make_detector m = Ok d ->
-  exists g' tab confs states, gen_of m = Ok (g', tab, confs, states) /\ d = mkDet m tab confs.
-Proof.
-  unfold make_detector. fold (gen_of m). intros H. bind_inv H r Hr.
-  destruct r as [[[g' tab] confs] states]. inversion H. eauto 8.
-Qed.
-
-Definition empty_macro : macrodef := mkMacro 0 [] [] [] [].
-
-Lemma empty_confs :
-  match gen_of empty_macro with Ok (_, _, confs, _) => confs = [] | _ => True end.
-Proof. vm_compute. reflexivity. Qed.
-
-Lemma gen_of_rule m m' : m_rule m = m_rule m' -> gen_of m = gen_of m'.
-Proof. intros H. unfold gen_of, detector_grammar. rewrite H. reflexivity. Qed.
-
-Lemma empty_rule_confs m d : make_detector m = Ok d -> m_rule m = [] -> d_conflicts d = [].
-Proof.
-  intros H E. destruct (make_detector_inv _ _ H) as (g' & tab & confs & states & HG & ->).
-  cbn [d_conflicts]. rewrite (gen_of_rule m empty_macro E) in HG.
-  pose proof empty_confs as K. rewrite HG in K. exact K.
-Qed.
